@@ -47,7 +47,9 @@ var intBounds = func() []int64 {
 
 var floatVals = []float64{0, math.Copysign(0, -1), 1, -1, 0.5, -1.5, 3.14, 1e21, 1e20, 1e-7, 1e-6, 123456789.125, math.MaxFloat64, -math.MaxFloat64,
 	math.SmallestNonzeroFloat64, -math.SmallestNonzeroFloat64, math.MaxFloat32, math.SmallestNonzeroFloat32, 1 << 53, 1<<53 + 2, math.Inf(1), math.Inf(-1), math.NaN(),
-	math.Float64frombits(0x7ff8000000000001), math.Float64frombits(0xfff0000000000001)}
+	math.Float64frombits(0x7ff8000000000001), math.Float64frombits(0xfff0000000000001),
+	// the edges of the integer types, as floats: whole numbers a formatter may want to print as integers
+	1 << 63, -(1 << 63), 1 << 64, 1 << 62, 9223372036854774784, -9223372036854774784, 1 << 31, -(1 << 31), 1 << 32, 1<<31 - 1, 1 << 24, 1<<24 + 1, 1e15, 1e16, 999999999999999.9}
 
 var stringVals = []string{"", "", "a", "ab", "\x00", "\x00\x00", " ", "héllo", "日本語", "  ", "\"quoted\"", "back\\slash", "tab\tnl\ncr\r", "\x01\x1f\x7f",
 	"\xff", "\xff\xfe\xfd", "a\xc3", "\xed\xa0\x80", "\u2028\u2029", "₩ ✨ ∩ ∨", "\u2027\u202a", "\xe2\x80", "\xe2\x80\xa7", strings.Repeat("x", 127), strings.Repeat("y", 128), strings.Repeat("z", 129), strings.Repeat("w", 300)}
